@@ -100,6 +100,7 @@ class DBusMessage :
                 marshal.marshal(
                     self.signature,
                     self.body,
+                    lendian=self.endian == ord('l'),
                     oobFDs=oobFDs
                 )[1]
             )
